@@ -426,13 +426,25 @@ def _rule_3_fragment(ctx):
 
 
 def rule_4(ctx):
+    """Error literals: each of Excel's seven codes is one operand token of the error sub-type wherever it stands (tokenized by
+    ExcelParser.getTokens as written), and the code tables of xlerrors agree with them."""
+    from . import parsetables as P
     tm = ctx.mod('tokenizer')
     gt = tm.func('ExcelParser.getTokens')
-    lit = [n for n in walk_local(gt) if isinstance(n, ast.Constant) and isinstance(n.value, str)
-           and '#N/A' in n.value]
-    if len(lit) != 1:
-        raise AnchorMissing(f'tokenizer error-literal list: {len(lit)} candidates')
-    tok_codes = {c for c in lit[0].value.split(',') if c}
+    tok_codes = set()
+    for code in ('#NULL!', '#DIV/0!', '#VALUE!', '#REF!', '#NAME?', '#NUM!', '#N/A'):
+        ok = True
+        for formula, want in ((f'={code}', [code]), (f'={code}+1', [code, '+', '1']), (f'=1&{code}', ['1', '&', code]),
+                              (f'=IFERROR({code},{code})', ['IFERROR', code, ',', code, ''])):
+            toks = P.tokens_of(ctx, formula)
+            if not (isinstance(toks, list) and [t[0] for t in toks] == want and all(t[2] == 'error' for t in toks if t[0] == code)):
+                ok = False
+        if ok:
+            tok_codes.add(code)
+
+    class _Lit:
+        lineno = gt.lineno
+    lit = [gt]
     xm = ctx.mod('xlfunctions.xlerrors')
     codes = ctx.fold(xm.assign('ERROR_CODES'), xm)
     code_set = set(codes)
